@@ -121,7 +121,7 @@ class Ctx(object):
 
 def _run_shard(args):
     prop, tier, seed, name, kwargs, budget = args
-    sys.setrecursionlimit(10000)
+    # the interpreter's default recursion limit is left alone: it is part of what a user of the library gets
     ctx = Ctx(prop, tier, seed, name)
     if budget:
         ctx.deadline = time.time() + budget
